@@ -1,8 +1,281 @@
-import AlgoVerif.Common
-/-! Line-protocol component for C02 — not built yet. -/
-namespace AlgoVerif.C02.Driver
+import AlgoVerif.Model.C02Run
+/-!
+Line-protocol component for C02 (also used by C03).  Keys and values are `Int`.
 
-def runCase (_hdr : List String) (ops : List String) : List String :=
-  ops.map fun _ => "bad-case"
+Header: `comp=chain|linear|quadratic|double hash=fnv|id|const|mod3|modm cap=<n> minlf=<a>/<b>
+maxlf=<a>/<b> shuffle=<seed>` (`cap=0` / missing load factors select the defaults).
+
+Ops (`b.` prefix = second table): `put k v`, `get k`, `delete k`, `deleteall`, `size`, `isempty`,
+`all`, `equal`, `dump`, `probes k`.  Mutating ops print the result followed by ` | ` and a summary
+of the internal state (`m n u p` and a 64-bit digest of every occupied slot).
+
+The shuffle is the replica of Go's `math/rand.(*Rand).Shuffle` driven by the splitmix64 source that
+the hook `symboltable.VerifSetShuffleSeed` installs (seed 0: identity).
+-/
+namespace AlgoVerif.C02.Driver
+open AlgoVerif AlgoVerif.C02
+
+/-! ### hash functions of the harness -/
+
+def toU64 (k : Int) : UInt64 := UInt64.ofNat (k % (18446744073709551616 : Int)).toNat
+
+/-- FNV-1 (64 bit) of the 8 little-endian bytes of a Go `int`: `hash.HashFuncForInt[int](nil)` -/
+def fnv1 (k : Int) : UInt64 := Id.run do
+  let x := toU64 k
+  let mut h : UInt64 := 14695981039346656037
+  for i in [0:8] do
+    h := h * 1099511628211
+    h := h ^^^ ((x >>> (UInt64.ofNat (8 * i))) &&& 255)
+  return h
+
+def emod (k : Int) (q : Nat) : UInt64 := UInt64.ofNat (k % (q : Int)).toNat
+
+def hashOf (name : String) (cap0 : Nat) : Int → UInt64 :=
+  match name with
+  | "fnv" => fnv1
+  | "id" => toU64
+  | "const" => fun _ => 5
+  | "mod3" => fun k => emod k 3
+  | "modm" => fun k => emod k cap0
+  | _ => fnv1
+
+/-! ### replica of `rand.Shuffle` over the hook's source -/
+
+structure Rng where
+  s : UInt64
+  identity : Bool
+
+def Rng.ofSeed (seed : Int) : Rng := ⟨toU64 seed, seed == 0⟩
+
+/-- `Uint32()` = `uint32(Int63() >> 31)`; `Int63()` = `splitmix64() >> 1` (or `1<<63-1` for the identity) -/
+def Rng.uint32 (g : Rng) : UInt64 × Rng :=
+  if g.identity then (4294967295, g)
+  else
+    let s := g.s + 0x9E3779B97F4A7C15
+    let z := s
+    let z := (z ^^^ (z >>> 30)) * 0xBF58476D1CE4E5B9
+    let z := (z ^^^ (z >>> 27)) * 0x94D049BB133111EB
+    let z := z ^^^ (z >>> 31)
+    (z >>> 32, { g with s := s })
+
+/-- the rejection loop of `int31n` -/
+def int31nLoop (n thresh : UInt64) : Nat → UInt64 → Rng → UInt64 × Rng
+  | 0, prod, g => (prod, g)
+  | fuel + 1, prod, g =>
+    if (prod &&& 4294967295) < thresh then
+      let (v, g') := g.uint32
+      int31nLoop n thresh fuel (v * n) g'
+    else (prod, g)
+
+/-- `int31n(n)` -/
+def int31n (g : Rng) (n : UInt64) : UInt64 × Rng :=
+  let (v, g1) := g.uint32
+  let prod := v * n
+  let low := prod &&& 4294967295
+  if low < n then
+    let thresh := (4294967296 - n) % n
+    let (prod', g2) := int31nLoop n thresh 100000 prod g1
+    (prod' >>> 32, g2)
+  else (prod >>> 32, g1)
+
+/-- `for i := n-1; i > 0; i-- { j := int31n(i+1); swap(i, j) }` on `indices = [0 … n-1]` -/
+def shuffleLoop : Nat → Array Nat → Rng → Array Nat × Rng
+  | 0, a, g => (a, g)
+  | i + 1, a, g =>
+    let (j, g') := int31n g (UInt64.ofNat (i + 2))
+    shuffleLoop i (a.swapIfInBounds (i + 1) j.toNat) g'
+
+def shuffle : Shuffle Rng := fun g n =>
+  if g.identity then (List.range n, g)
+  else
+    let (a, g') := shuffleLoop (n - 1) (Array.range n) g
+    (a.toList, g')
+
+/-! ### rendering -/
+
+def fnvStep (d : UInt64) (x : UInt64) : UInt64 := (d ^^^ x) * 1099511628211
+
+def hex16 (x : UInt64) : String :=
+  let ds := (Nat.toDigits 16 x.toNat)
+  String.ofList (List.replicate (16 - ds.length) '0' ++ ds)
+
+def showPairs (l : List (Int × Int)) : String :=
+  let sorted := l.mergeSort (fun a b => a.1 < b.1 || (a.1 == b.1 && a.2 ≤ b.2))
+  "[" ++ " ".intercalate (sorted.map fun e => s!"({e.1},{e.2})") ++ "]"
+
+/-- what the driver needs to print about a table of type `T` -/
+structure Describe (T : Type) where
+  summary : T → String
+  dump : T → String
+  probes : T → Int → String
+
+def oaDigest (t : OATable Int Int) : UInt64 := Id.run do
+  let mut d : UInt64 := 14695981039346656037
+  let mut i := 0
+  for s in t.slots do
+    match s with
+    | some e =>
+      d := fnvStep (fnvStep (fnvStep (fnvStep d (UInt64.ofNat i)) (toU64 e.key)) (toU64 e.val)) (if e.deleted then 1 else 0)
+    | none => pure ()
+    i := i + 1
+  return d
+
+def oaName : Kind → String
+  | .quad => "quadratic"
+  | .dbl => "double"
+
+def oaDescribe (hash : Int → UInt64) : Describe (OATable Int Int) where
+  summary t := s!"m={t.m} n={t.n} u={t.u} p={t.p} h={hex16 (oaDigest t)}"
+  dump t := Id.run do
+    let mut parts : Array String := #[]
+    let mut i := 0
+    for s in t.slots do
+      match s with
+      | some e => parts := parts.push s!"{i}:({e.key},{e.val},{if e.deleted then "D" else "L"})"
+      | none => pure ()
+      i := i + 1
+    return s!"{oaName t.kind} m={t.m} n={t.n} u={t.u} p={t.p} [" ++ " ".intercalate parts.toList ++ "]"
+  probes t k :=
+    let sh := fun (o : Option Nat) => match o with | some c => toString c | none => "-1"
+    s!"get={sh (OA.probesGet t (mix (hash k)) k (4 * t.m + 4) 0)} find={sh (OA.probesFind t (mix (hash k)) k (4 * t.m + 4) 0)}"
+
+def linDigest (t : LinTable Int Int) : UInt64 := Id.run do
+  let mut d : UInt64 := 14695981039346656037
+  let mut i := 0
+  for s in t.slots do
+    match s with
+    | some e => d := fnvStep (fnvStep (fnvStep (fnvStep d (UInt64.ofNat i)) (toU64 e.1)) (toU64 e.2)) 0
+    | none => pure ()
+    i := i + 1
+  return d
+
+def linDescribe (hash : Int → UInt64) : Describe (LinTable Int Int) where
+  summary t := s!"m={t.m} n={t.n} u={t.n} p=0 h={hex16 (linDigest t)}"
+  dump t := Id.run do
+    let mut parts : Array String := #[]
+    let mut i := 0
+    for s in t.slots do
+      match s with
+      | some e => parts := parts.push s!"{i}:({e.1},{e.2},L)"
+      | none => pure ()
+      i := i + 1
+    return s!"linear m={t.m} n={t.n} u={t.n} p=0 [" ++ " ".intercalate parts.toList ++ "]"
+  probes t k :=
+    let sh := fun (o : Option Nat) => match o with | some c => toString c | none => "-1"
+    let c := sh (Lin.probes t (mix (hash k)) k (4 * t.m + 4) 0)
+    s!"get={c} find={c}"
+
+def chainDigest (t : ChainTable Int Int) : UInt64 := Id.run do
+  let mut d : UInt64 := 14695981039346656037
+  let mut i := 0
+  for b in t.buckets do
+    for e in b do
+      d := fnvStep (fnvStep (fnvStep (fnvStep d (UInt64.ofNat i)) (toU64 e.1)) (toU64 e.2)) 0
+    i := i + 1
+  return d
+
+def chainDescribe (hash : Int → UInt64) : Describe (ChainTable Int Int) where
+  summary t := s!"m={t.m} n={t.n} u={t.n} p=0 h={hex16 (chainDigest t)}"
+  dump t := Id.run do
+    let mut parts : Array String := #[]
+    let mut i := 0
+    for b in t.buckets do
+      for e in b do
+        parts := parts.push s!"{i}:({e.1},{e.2},L)"
+      i := i + 1
+    return s!"chain m={t.m} n={t.n} u={t.n} p=0 [" ++ " ".intercalate parts.toList ++ "]"
+  probes t k :=
+    let c := Chain.nodesVisited k (t.buckets[Chain.hashIdx t.m (mix (hash k))]?.getD [])
+    s!"get={c} find={c}"
+
+def showOpt : Option Int → String
+  | some v => s!"some {v}"
+  | none => "none"
+
+/-! ### the op loop -/
+
+def parseOp (ws : List String) : Option (Op Int Int ⊕ (Bool × String × Option Int)) :=
+  -- `inl`: an operation of the Model; `inr (b, "dump"|"probes", arg)`: an observation of the driver
+  let (b, ws) : Bool × List String :=
+    match ws with
+    | w :: rest => if w.startsWith "b." then (true, (w.drop 2).toString :: rest) else (false, ws)
+    | [] => (false, [])
+  match ws with
+  | ["put", k, v] => match parseInt? k, parseInt? v with
+    | some k, some v => some (.inl (.put b k v))
+    | _, _ => none
+  | ["get", k] => (parseInt? k).map fun k => .inl (.get b k)
+  | ["delete", k] => (parseInt? k).map fun k => .inl (.delete b k)
+  | ["deleteall"] => some (.inl (.deleteAll b))
+  | ["size"] => some (.inl (.size b))
+  | ["isempty"] => some (.inl (.isEmpty b))
+  | ["all"] => some (.inl (.all b))
+  | ["equal"] => some (.inl .equal)
+  | ["dump"] => some (.inr (b, "dump", none))
+  | ["probes", k] => (parseInt? k).map fun k => .inr (b, "probes", some k)
+  | _ => none
+
+def renderOut {T : Type} (D : Describe T) (s : State T Rng) (op : Op Int Int) (o : Out Int Int) : String :=
+  match op, o with
+  | .put b _ _, _ => s!"ok | {D.summary (s.sel b)}"
+  | .delete b _, .val r => s!"ok {showOpt r} | {D.summary (s.sel b)}"
+  | .deleteAll b, _ => s!"ok | {D.summary (s.sel b)}"
+  | _, .unit => "ok"
+  | _, .val r => s!"ok {showOpt r}"
+  | _, .bool r => s!"ok {showBool r}"
+  | _, .int r => s!"ok {r}"
+  | _, .list l => s!"ok {showPairs l}"
+
+def runWith {T : Type} (I : Impl Int Int Rng T) (D : Describe T) (init : Outcome (State T Rng))
+    (ops : List String) : List String := Id.run do
+  match init with
+  | .ok s0 =>
+    let mut s := s0
+    let mut dead := false
+    let mut out : Array String := #[]
+    for line in ops do
+      if dead then out := out.push "skip"; continue
+      match parseOp (words line) with
+      | none => out := out.push "bad-op"
+      | some (.inr (b, what, arg)) =>
+        if what == "dump" then out := out.push s!"ok {D.dump (s.sel b)}"
+        else out := out.push s!"ok {D.probes (s.sel b) (arg.getD 0)}"
+      | some (.inl op) =>
+        match step I s op with
+        | .ok (s', o) => s := s'; out := out.push (renderOut D s' op o)
+        | .panic => dead := true; out := out.push "panic"
+        | .diverge => dead := true; out := out.push "hang"
+    return out.toList
+  | _ => return ops.map fun _ => "panic"
+
+def parseLF (s : Option String) : LF :=
+  match s with
+  | some t => match t.splitOn "/" with
+    | [a, b] => ⟨a.toNat?.getD 0, b.toNat?.getD 1⟩
+    | [a] => ⟨a.toNat?.getD 0, 1⟩
+    | _ => ⟨0, 1⟩
+  | none => ⟨0, 1⟩
+
+def eqI (a b : Int) : Bool := a == b
+
+def runCase (hdr : List String) (ops : List String) : List String :=
+  let cap := headerNat hdr "cap" 0
+  let opts : Opts := ⟨cap, parseLF (headerGet hdr "minlf"), parseLF (headerGet hdr "maxlf")⟩
+  let g := Rng.ofSeed (headerInt hdr "shuffle" 0)
+  let hname := (headerGet hdr "hash").getD "fnv"
+  match headerGet hdr "comp" with
+  | some "quadratic" =>
+    let hash := hashOf hname (if cap = 0 then Kind.quad.minM else cap)
+    runWith (OA.impl shuffle hash eqI) (oaDescribe hash) (initState (OA.new .quad opts) g) ops
+  | some "double" =>
+    let hash := hashOf hname (if cap = 0 then Kind.dbl.minM else cap)
+    runWith (OA.impl shuffle hash eqI) (oaDescribe hash) (initState (OA.new .dbl opts) g) ops
+  | some "linear" =>
+    let hash := hashOf hname (if cap = 0 then AlgoVerif.Generated.symboltable_lpMinM else cap)
+    runWith (Lin.impl shuffle hash eqI) (linDescribe hash) (initState (Lin.new opts) g) ops
+  | some "chain" =>
+    let hash := hashOf hname (if cap = 0 then AlgoVerif.Generated.symboltable_scMinM else cap)
+    runWith (Chain.impl shuffle hash eqI) (chainDescribe hash) (initState (Chain.new opts) g) ops
+  | _ => ops.map fun _ => "bad-case"
 
 end AlgoVerif.C02.Driver
